@@ -6,7 +6,8 @@ refuted for the code as it is), redraw covers old and new box, mask dilation, sh
 Tie: (a) sraClipRect2 and the protocol constants are re-translated from /repo on every run;
 (b) correspondence: the extracted model and the real library (rfbShowCursor/rfbHideCursor called on a real
 client, real update sessions over socketpairs) run the same scripts, every observable compared.  The model
-has two clip variants (as-is / repaired); the run decides which one the library implements.
+carries, beside the code of the tree, the variants before the fixes 1a3b6d2 / 0775c26 / 2b32386 (F15, F15b, F15c);
+the run uses the tree's variant and names a regression when dropping one repair explains a disagreement.
 Independently of the mirror model the property predicate (framebuffer restored; picture = overlay) is
 evaluated in Python on the implementation's own output.
 """
@@ -599,7 +600,7 @@ def run_model(mexe, cases, variant=""):
     return vlib.run_driver([mexe] + ([variant] if variant else []), script, timeout=3000, unlimited_stack=True)
 
 
-REPAIRS = ["clip", "empty", "switch"]      # notes/fix_C15_1.diff, _2, _3
+REPAIRS = ["clip", "empty", "switch"]      # /repo commits 1a3b6d2, 0775c26, 2b32386 (were notes/fix_C15_1.._3.diff)
 
 
 def case_kind(c):
@@ -624,15 +625,17 @@ def check(ctx):
             if d is not None:
                 out.append((idx, d))
         return out
-    # which of the proposed repairs does the library contain?  (greedy: a repair is "in" when mirroring it
-    # removes disagreements)
-    mm0 = mism("")
-    mismatches, chosen = mm0, []
+    # the tree contains the three repairs (commits 1a3b6d2, 0775c26, 2b32386): the model mirrors them.
+    # On disagreement find out (greedy) whether dropping one of them explains it - a regression of that fix.
+    tree = list(REPAIRS)
+    mm0 = mism(",".join(tree))
+    mismatches, chosen = mm0, tree
     if mismatches:
         for r in REPAIRS:
-            cand = mism(",".join(chosen + [r]))
+            trial = [x for x in chosen if x != r]
+            cand = mism(",".join(trial))
             if len(cand) < len(mismatches):
-                mismatches, chosen = cand, chosen + [r]
+                mismatches, chosen = cand, trial
     variant = ",".join(chosen)
     nops = sum(len(c) - 1 for c in cases)
     hist, distinct = {}, set()
@@ -660,7 +663,8 @@ def check(ctx):
              "observed on the implementation after rfbShowCursor",
         samples=[cases[i] for i in (0, len(cases) // 2, len(cases) - 1)],
         input_distribution=hist, cases=len(cases), repairs_found_in_library=variant or "none",
-        correspondence_mismatches=len(mismatches), mismatches_against_as_is_model=len(mm0),
+        repairs_expected_in_library=",".join(REPAIRS),
+        correspondence_mismatches=len(mm0), mismatches_of_closest_variant=len(mismatches),
         oracle_failures=len(oracle_fail), exhaustive=False)
     ctx.assumptions += ["server pixel format is little-endian (serverFormat.bigEndian = FALSE, x86-64 host)",
                         "one client thread at a time (interleavings of two output threads are C13's)"]
@@ -691,8 +695,9 @@ def check(ctx):
         ctx.violation("cursor property violated on the implementation: " + msg, feat,
                       "script:\n" + "\n".join(small) + "\n\nimplementation output:\n" + co + ce[-1500:] +
                       "\nmodel output (repairs mirrored: %s):\n" % (variant or "none") + mo)
-    if mismatches and not [1 for (_, (m, f)) in oracle_fail if vlib.match_finding("C15", f) is None]:
-        idx, d = mismatches[0]
+    if mm0 and not [1 for (_, (m, f)) in oracle_fail if vlib.match_finding("C15", f) is None]:
+        idx, d = mm0[0]
+        variant = ",".join(REPAIRS)
 
         def pred2(lines):
             r, co, _ = run_impl(cexe, [lines])
@@ -701,9 +706,9 @@ def check(ctx):
         small = shrink(idx, pred2)
         r, co, ce = run_impl(cexe, [small])
         _, mo, me = run_model(mexe, [small], variant)
-        ctx.violation("correspondence Cursor/*.v <-> cursor.c/rfbserver.c no longer holds (%d cases differ from the as-is "
-                      "model, %d from the closest repaired variant '%s'); the property predicate held on every "
-                      "implementation output explored" % (len(mm0), len(mismatches), variant), {"kind": "correspondence"},
+        ctx.violation("correspondence Cursor/*.v <-> cursor.c/rfbserver.c no longer holds (%d cases differ from the model of "
+                      "the tree, %d from the closest variant '%s' with some repair dropped); the property predicate held on "
+                      "every implementation output explored" % (len(mm0), len(mismatches), ",".join(chosen)), {"kind": "correspondence"},
                       "correspondence: Cursor/CursorDefs.v, Cursor/CursorSession.v vs src/libvncserver/cursor.c, "
                       "rfbserver.c (rfbSendFramebufferUpdate bracket, SetEncodings), main.c (rfbDefaultPtrAddEvent)\n"
                       "script:\n" + "\n".join(small) + "\n\nimplementation output:\n" + co + ce[-1500:] +
@@ -724,13 +729,13 @@ def replay(ctx, path):
     r, co, ce = run_impl(cexe, [lines])
     _, m0, _ = run_model(mexe, [lines], "")
     _, m1, _ = run_model(mexe, [lines], ",".join(REPAIRS))
-    print("implementation:\n" + co + ce[-800:] + "model (code as it is):\n" + m0 + "model (all proposed repairs):\n" + m1)
+    print("implementation:\n" + co + ce[-800:] + "model (tree: all three repairs):\n" + m1 + "model (before the repairs):\n" + m0)
     cs = vlib.split_cases(co)
     es = oracle_case(lines, cs[0][1] if cs else [])
     ctx.coverage.update(evaluations=len(lines) - 1, distinct_nontrivial=0, rule="replay", samples=[lines])
     for (msg, feat) in es[:3]:
         ctx.violation("cursor property violated on the implementation: " + msg, feat,
                       "script:\n" + "\n".join(lines) + "\n\nimplementation output:\n" + co)
-    if not es and co != m0 and co != m1 and all(co != run_model(mexe, [lines], r)[1] for r in REPAIRS):
+    if not es and co != m1:
         ctx.violation("correspondence differs on the replayed script", {"kind": "correspondence"},
                       "script:\n" + "\n".join(lines) + "\n\n" + co + "\n" + m0, no_input=True)
